@@ -92,6 +92,10 @@ pub fn worker_main(def: &EngineDef, a: &WorkerArgs) -> ! {
         }
         let rs = rng::run_seed(a.seed, i);
         let sc = (def.generate)(&a.prop, rs, a.tier);
+        // self-test of the supervisor only (never set by the checks): die like an abort would
+        if std::env::var("FVSIM_SELFTEST_ABORT_AT").ok().and_then(|s| s.parse::<u64>().ok()) == Some(i) {
+            std::process::abort();
+        }
         let out = execute(def, &a.prop, &sc, &mut rep.stats, &known, false);
         rep.runs += 1;
         if a.emit_digests {
